@@ -54,15 +54,8 @@ def run(chk, repo):
     if "entry_re" not in rx:
         raise AnalysisError("anchor vanished: summary.entry_re")
     R = rx["entry_re"]
-    pl = mod.func("parse_line")
-    where = f"{mod.relpath}:parse_line"
-    mcalls = [c for c in calls_in(pl) if isinstance(c.func, ast.Attribute) and c.func.attr in ("match", "fullmatch", "search") and norm(c.func.value) == "entry_re"]
-    if len(mcalls) != 1:
-        raise AnalysisError("anchor vanished: entry_re match in parse_line")
-    m = mcalls[0]
-    anchored = m.func.attr == "fullmatch" or (m.func.attr == "match" and R.ends_anchored())
-    chk.require(anchored, "C14-S1", where, "parse_line uses entry_re.fullmatch(line)",
-                f"parse_line uses entry_re.{m.func.attr}: a line with trailing garbage / a prefix is accepted instead of reported", key="parse_line:anchoring")
+    chk.attempt(summary_eval, chk, repo, mod)
+    chk.attempt(s1_form, chk, repo, mod, R, covered_by="summary_eval", rules=("C14-S1",))
     method = getattr(R.compiled, "fullmatch")
     for text, (sec, kw, val) in ACCEPT:
         mm = method(text)
@@ -88,19 +81,8 @@ def run(chk, repo):
                     bad = bad or (line, mm.groupdict() if mm else None)
     chk.require(bad is None, "C14-S2", f"{mod.relpath}:entry_re", f"all {n_enum} lines Odi_<kw>=\"<value>\" with values over {{x, space, =, \"}} up to 5 characters split at the first =\" and keep the whole value",
                 f"entry_re parses {bad[0]!r} as {bad[1]}: the keyword/value split is not at the first =\"" if bad else "", key="entry_re:enumeration")
-    # parse_line raises ValueError when no match, returns groupdict
-    ok_pl = any(isinstance(n, ast.Raise) and "ValueError" in norm(n.exc) for n in pl.own_nodes()) and any(isinstance(n, ast.Return) and "groupdict" in norm(n.value) for n in pl.own_nodes())
-    chk.require(ok_pl, "C14-S1", where, "parse_line raises ValueError on a non-match and returns the groups otherwise", "parse_line no longer raises ValueError / returns the groups", key="parse_line:contract")
-    chk.attempt(summary_eval, chk, repo, mod)
     chk.attempt(s3, chk, repo, mod, covered_by="summary_eval", rules=("C14-S3",))
-    # S4
-    ps = mod.func("parse_summary")
-    flow = Flow(ps)
-    loop = _line_loop(ps)
-    it = flow.expand(loop.iter)
-    txt = norm(it)
-    chk.require(".splitlines()" in txt and "split('\\n')" not in txt.replace('"', "'"), "C14-S4", f"{mod.relpath}:parse_summary", f"lines = {txt}",
-                f"lines are produced by {txt}: CRLF files leave a trailing \\r on every line", key="parse_summary:splitlines")
+    chk.attempt(s4_form, chk, repo, mod, covered_by="summary_eval", rules=("C14-S4",))
     # S5
     sn = mod.assigns.get("section_names")
     ts = mod.func("transform_summary")
@@ -117,6 +99,37 @@ def run(chk, repo):
     from .c13 import summary_published_as_parsed
     chk.attempt(summary_published_as_parsed, chk, repo)
     chk.count("functions", 3)
+
+
+def s1_form(chk, repo, mod, R):
+    """form rule: parse_line matches the whole line and raises ValueError otherwise (decided by evaluation in C14-S9 when written differently)"""
+    pl = mod.func("parse_line")
+    where = f"{mod.relpath}:parse_line"
+    mcalls = [c for c in calls_in(pl) if isinstance(c.func, ast.Attribute) and c.func.attr in ("match", "fullmatch", "search") and norm(c.func.value) == "entry_re"]
+    if len(mcalls) != 1:
+        raise AnalysisError(f"{where}: not one entry_re.match/fullmatch/search call in parse_line; not decided by the form rule")
+    m = mcalls[0]
+    anchored = m.func.attr == "fullmatch" or (m.func.attr == "match" and R.ends_anchored())
+    chk.require(anchored, "C14-S1", where, "parse_line uses entry_re.fullmatch(line)",
+                f"parse_line uses entry_re.{m.func.attr}: a line with trailing garbage / a prefix is accepted instead of reported", key="parse_line:anchoring")
+    ok_pl = any(isinstance(n, ast.Raise) and "ValueError" in norm(n.exc) for n in pl.own_nodes()) and any(isinstance(n, ast.Return) and "groupdict" in norm(n.value) for n in pl.own_nodes())
+    if not ok_pl:
+        raise AnalysisError(f"{where}: not the recognised form (raise ValueError on a non-match, return match.groupdict()); not decided by the form rule")
+    chk.ok("C14-S1", where, "parse_line raises ValueError on a non-match and returns the groups otherwise")
+
+
+def s4_form(chk, repo, mod):
+    """form rule: the lines come from str.splitlines() (CRLF-safe); `split('\\n')` is the recognised bad form, anything else is left to the evaluation on CRLF texts (C14-S9)"""
+    ps = mod.func("parse_summary")
+    flow = Flow(ps)
+    loop = _line_loop(ps)
+    it = flow.expand(loop.iter)
+    txt = norm(it)
+    bad = "split('\\n')" in txt.replace('"', "'")
+    if not bad and ".splitlines()" not in txt:
+        raise AnalysisError(f"{mod.relpath}:parse_summary: lines are produced by {txt[:80]}: neither splitlines() nor split('\\n'); not decided by the form rule")
+    chk.require(not bad, "C14-S4", f"{mod.relpath}:parse_summary", f"lines = {txt}",
+                f"lines are produced by {txt}: CRLF files leave a trailing \\r on every line", key="parse_summary:splitlines")
 
 
 def summary_eval(chk, repo, mod):
